@@ -571,5 +571,131 @@ theorem scTry_spec (G : Graph) (k z other : Nat) (h : SCBase G) (hv : VZ G) (hk 
       · rw [if_neg hn]; exact Or.inl rfl
   · rw [if_neg hz]; exact Or.inl rfl
 
+/-- Loop invariant of `ShortCircuitXORZero` before gate `k` is processed. -/
+structure SCInv (G : Graph) (k : Nat) : Prop where
+  base : SCBase G
+  vz   : VZ G
+  ptr  : Ptr G k
+
+theorem Ptr.mono {G : Graph} {k m : Nat} (h : Ptr G k) (hkm : k ≤ m) : Ptr G m := by
+  intro w q hin
+  obtain ⟨hq, hc⟩ := h w q hin
+  refine ⟨hq, ?_⟩
+  rcases hc with hc | hc | hc
+  · exact Or.inl hc
+  · exact Or.inr (Or.inl hc)
+  · exact Or.inr (Or.inr (fun j hj hjs => hc j (by omega) hjs))
+
+/-- What the loop carries from one graph to the next. -/
+structure SCRel (G G' : Graph) : Prop where
+  gsize : G'.gates.size = G.gates.size
+  outs  : G'.outputs = G.outputs
+  comp  : ∀ x, G'.compute x = G.compute x
+
+theorem SCRel.refl (G : Graph) : SCRel G G := ⟨rfl, rfl, fun _ => rfl⟩
+theorem SCRel.trans {G G' G'' : Graph} (a : SCRel G G') (b : SCRel G' G'') : SCRel G G'' :=
+  ⟨b.gsize.trans a.gsize, b.outs.trans a.outs, fun x => (b.comp x).trans (a.comp x)⟩
+
+theorem fire_rel {G : Graph} {k p z ow : Nat} (h : SCBase G) (f : FirePre G k p z ow) :
+    SCRel G (G.fire k p) := ⟨fire_gsize G k p, rfl, fire_compute h f⟩
+
+/-- pointer fact for an input of gate `k`, from `Ptr G k` -/
+theorem Ptr.of_read {G : Graph} {k : Nat} (h : Ptr G k) (hk : k < G.gates.size) (w : Nat)
+    (hr : reads (G.gate k) w) (q : Nat) (hin : (G.wire w).input = some q) :
+    q < G.gates.size ∧ ((G.gate q).o = w ∨ (G.wire (G.gate q).o).numOut = 0) := by
+  obtain ⟨hq, hc⟩ := h w q hin
+  refine ⟨hq, ?_⟩
+  rcases hc with hc | hc | hc
+  · exact Or.inl hc
+  · exact Or.inr hc
+  · exact absurd hr (hc k (Nat.le_refl k) hk)
+
+theorem scStep_spec (G : Graph) (k : Nat) (h : SCInv G k) (hk : k < G.gates.size) :
+    SCInv (G.scStep k) (k + 1) ∧ SCRel G (G.scStep k) := by
+  unfold scStep
+  by_cases hx : (G.gate k).op = .xor
+  · rw [if_neg (by simp [hx])]
+    simp only
+    have hxi : (G.gate k).op ≠ .inv := by rw [hx]; simp
+    have hra : reads (G.gate k) (G.gate k).a := Or.inl rfl
+    have hrb : reads (G.gate k) (G.gate k).b := Or.inr ⟨hxi, rfl⟩
+    rcases scTry_spec G k (G.gate k).a (G.gate k).b h.base h.vz hk hx (Or.inl ⟨rfl, rfl⟩)
+        (fun q hin => h.ptr.of_read hk _ hrb q hin) with e1 | ⟨p1, hin1, f1, e1⟩
+    · -- first `if` does not fire
+      rw [e1]
+      rcases scTry_spec G k (G.gate k).b (G.gate k).a h.base h.vz hk hx (Or.inr ⟨rfl, rfl⟩)
+          (fun q hin => h.ptr.of_read hk _ hra q hin) with e2 | ⟨p2, hin2, f2, e2⟩
+      · rw [e2]; exact ⟨⟨h.base, h.vz, h.ptr.mono (Nat.le_succ k)⟩, SCRel.refl G⟩
+      · rw [e2]
+        exact ⟨⟨fire_base h.base f2, fire_vz h.base f2 h.vz, fire_ptr h.base f2 (Nat.le_succ k) h.ptr⟩,
+          fire_rel h.base f2⟩
+    · -- first `if` fires
+      rw [e1]
+      have hb1 := fire_base h.base f1
+      have hv1 := fire_vz h.base f1 h.vz
+      have hp1 := fire_ptr h.base f1 (Nat.le_succ k) h.ptr
+      have hr1 := fire_rel h.base f1
+      obtain ⟨fop, fa, fb, _, fo⟩ := fire_fields h.base f1 k
+      have hk1 : k < (G.fire k p1).gates.size := by rw [fire_gsize]; exact hk
+      have hpk := f1.p_lt h.base
+      rw [fa, fb]
+      rcases scTry_spec (G.fire k p1) k (G.gate k).b (G.gate k).a hb1 hv1 hk1 (by rw [fop]; exact hx)
+          (Or.inr ⟨fb, fa⟩) (fun q hin => by
+            rw [fire_wire_all] at hin
+            obtain ⟨hq, hc⟩ := h.ptr.of_read hk _ hra q hin
+            rw [fire_gsize]
+            refine ⟨hq, ?_⟩
+            rw [(fire_fields h.base f1 q).2.2.2.2, fire_wire_all]
+            rcases hc with hg | hz
+            · -- genuine pointer: q is neither p1 nor k
+              have hqp : q ≠ p1 := by
+                intro e; subst e
+                rw [f1.prod] at hg
+                exact f1.z_ne h.base hg.symm
+              have hqk : q ≠ k := by
+                intro e; subst e
+                exact (h.base.wf.topo q q (Nat.le_refl q) ((h.base.live_iff q).mpr hk)
+                  ((h.base.live_iff q).mpr hk)).1 hg
+              rw [if_neg hqk, if_neg hqp]; exact Or.inl hg
+            · by_cases hqk : q = k
+              · rw [if_pos hqk]
+                right
+                have : G.wire G.wires.size = {} := by simp [wire, Array.getD]; rfl
+                rw [this]
+              · rw [if_neg hqk]
+                by_cases hqp : q = p1
+                · subst hqp
+                  rw [f1.prod, f1.one] at hz; omega
+                · rw [if_neg hqp]; exact Or.inr hz) with e2 | ⟨p2, hin2, f2, e2⟩
+      · rw [e2]; exact ⟨⟨hb1, hv1, hp1⟩, hr1⟩
+      · rw [e2]
+        refine ⟨⟨fire_base hb1 f2, fire_vz hb1 f2 hv1, fire_ptr hb1 f2 (Nat.le_refl _) hp1⟩,
+          hr1.trans (fire_rel hb1 f2)⟩
+  · rw [if_pos hx]
+    exact ⟨⟨h.base, h.vz, h.ptr.mono (Nat.le_succ k)⟩, SCRel.refl G⟩
+
+theorem scLoop_spec : ∀ (n k : Nat) (G : Graph), SCInv G k → k + n = G.gates.size →
+    SCRel G ((List.range' k n).foldl scStep G) ∧ SCBase ((List.range' k n).foldl scStep G) := by
+  intro n
+  induction n with
+  | zero => intro k G h _; exact ⟨SCRel.refl G, h.base⟩
+  | succ n ih =>
+    intro k G h hkn
+    simp only [List.range'_succ, List.foldl_cons]
+    obtain ⟨hi, hr⟩ := scStep_spec G k h (by omega)
+    obtain ⟨hr2, hb2⟩ := ih (k + 1) (G.scStep k) hi (by rw [hr.gsize]; omega)
+    exact ⟨hr.trans hr2, hb2⟩
+
+/-- **`ShortCircuitXORZero` preserves the function of the graph**, for every
+well-formed graph (single assignment, weakly topological, no dead gate,
+fan-out counters not below the real fan-out, outputs unread, sound Zero
+annotations on XOR inputs, sound input-gate pointers) and every input. -/
+theorem shortCircuitXORZero_preserves (G : Graph) (h : SCInv G 0) :
+    SCBase G.shortCircuitXORZero ∧ ∀ x, G.shortCircuitXORZero.compute x = G.compute x := by
+  unfold shortCircuitXORZero
+  rw [List.range_eq_range']
+  obtain ⟨hr, hb⟩ := scLoop_spec G.gates.size 0 G h (by omega)
+  exact ⟨hb, hr.comp⟩
+
 end Graph
 end Mpc
